@@ -7,7 +7,7 @@ def claim(pid, text, note, technique, design_ref):
 
 
 claim("C08",
-      text="23 Lean 4 theorems over a model of tsdb.escape/unescape/split/join/cast/format and itsdb.Row state the encoding "
+      text="24 Lean 4 theorems (incl. pins of the date regexes and constants read from the code objects) over a model of tsdb.escape/unescape/split/join/cast/format and itsdb.Row state the encoding "
            "clauses for every string, record, integer and date-time: unescape∘escape = id and escape∘unescape = id on the image, "
            "unescape succeeds exactly on well-escaped text, no raw newline/delimiter in an escaped value, injectivity, "
            "split∘join = id modulo ''/None (with and without the trailing newline), exactly n-1 delimiters, join injective; "
@@ -80,7 +80,7 @@ claim("C18",
       design_ref="DESIGN.md §5 C18")
 
 claim("C04",
-      text="Proved over a hand-written Lean model of dmrs.from_mrs and mrs.from_dmrs (on the shared semantic core), for all MRSs "
+      text="Proved (22 theorems incl. pins of the module constants and the constants of 25 anchored functions) over a hand-written Lean model of dmrs.from_mrs and mrs.from_dmrs (on the shared semantic core), for all MRSs "
            "with pairwise distinct EP identifiers: every link is justified by the source (role of the start predication; target "
            "is the argument's predication or the first representative of the selected scope; EQ/NEQ by label identity, H for a "
            "handle constraint, HEQ for a direct label; MOD/EQ between representatives of one scope) with no well-formedness "
@@ -122,7 +122,7 @@ claim("C05",
       design_ref="DESIGN.md §5 C05")
 
 claim("C12",
-      text="Proved in Lean 4 (48 theorems) for all profiles, schemas, filter outcomes and flag combinations of the model of "
+      text="Proved in Lean 4 (49 theorems, incl. pins of the source constants) for all profiles, schemas, filter outcomes and flag combinations of the model of "
            "commands.mkprof: a profile made from a source profile holds, per copied relation, exactly the selected rows in order, "
            "with cells unchanged up to the field default and by-name remapping under a different schema; uncopied relations are "
            "empty; the skeleton/full file-presence rules hold; in-place refresh preserves rows; text input gives one item per line "
@@ -142,7 +142,7 @@ claim("C12",
       design_ref="DESIGN.md §5 C12")
 
 claim("C09",
-      text="Lean theorems (31) over an executable model of tsdb.write/_get_paths/write_database prove, for all histories and all "
+      text="Lean theorems (32, incl. pins of the source constants) over an executable model of tsdb.write/_get_paths/write_database prove, for all histories and all "
            "start states (including both physical forms with arbitrary mtimes), that the read equals the last overwrite followed "
            "by the accepted later appends, and that exactly one file exists after any accepted write, compressed iff requested "
            "and non-empty (so stale data cannot resurface). They also prove that failed writes change nothing, that "
@@ -181,7 +181,7 @@ claim("C10",
       design_ref="DESIGN.md §5 C10")
 
 claim("C11",
-      text="Proved for all inputs of the model of tsql (25 theorems): the hash join equals the nested-loop comprehension (order and "
+      text="Proved for all inputs of the model of tsql (26 theorems, incl. pins: the 20 lexer classes in order, operator table, function constants, defaults): the hash join equals the nested-loop comprehension (order and "
            "multiplicity); each join step keeps exactly the pairs that agree on every shared key name; select is the left-deep "
            "nested-loop join filtered by the condition and projected in order; every returned row is justified by one witness "
            "row per relation satisfying the condition; the single-relation case is stored order and multiplicity; '*' emits "
@@ -204,7 +204,7 @@ claim("C11",
       design_ref="DESIGN.md §5 C11")
 
 claim("C17",
-      text="Proved in Lean, core only, for every identifier normaliser (29 theorems): every hierarchy produced by the constructor "
+      text="Proved in Lean, core only, for every identifier normaliser (30 theorems, incl. pins: the whitespace set of parents.split(), the normalisers of the wrappers, defaults): every hierarchy produced by the constructor "
            "followed by any sequence of accepted and rejected update/__setitem__ calls satisfies the invariant WF "
            "(history_invariant). From WF: children are the inverse of parents, ancestors/descendants are exactly the transitive "
            "closure of parents and mutually inverse, the graph is acyclic, every node other than the top has the top as ancestor "
@@ -220,7 +220,7 @@ claim("C17",
       design_ref="DESIGN.md §5 C17")
 
 claim("C20",
-      text="Lean 4 theorems (29) over a model of commands.convert (format-name parsing, codec and converter selection, per-item "
+      text="Lean 4 theorems (32, incl. pins: codec capabilities and frames, format-name constants, defaults, caught exceptions, converter probe on 36 pairs) over a model of commands.convert (format-name parsing, codec and converter selection, per-item "
            "error isolation, and the header + joiner.join(parts) + footer assembly with its indent and -lines paths) prove, for "
            "every item list including N = 0, for every codec module, with and without indentation and -lines, that the "
            "assembled text is read back by the target family's document reader as exactly the converted items in order. The side "
@@ -294,7 +294,7 @@ claim("C02",
       design_ref="DESIGN.md §5 C02")
 
 claim("C15",
-      text="Lean 4 theorems (20) over a model of delphin.tdl/tfs prove, for all inputs, the token-level round trip of the whole "
+      text="Lean 4 theorems (21, incl. pins: the lexer pattern, group numbers, layout constants, list type names, format strings) over a model of delphin.tdl/tfs prove, for all inputs, the token-level round trip of the whole "
            "term grammar: parse (toks x ++ rest) = ok (canon x, rest) for nested conjunctions, AVMs with dotted paths, cons "
            "lists (closed, open, dotted, empty), diff lists, coreferences, strings, regexes and docstrings; the round trip of "
            "every top-level item kind (type definitions, addenda incl. docstring-only, lexical rules with affix patterns, letter "
@@ -332,7 +332,7 @@ claim("C06",
       design_ref="DESIGN.md §5 C06")
 
 claim("C19",
-      text="Proved in Lean (15 theorems), for a state-machine model of delphin/ace.py (interact/send/_result_lines/receive/_open/"
+      text="Proved in Lean (16 theorems, incl. pins of 29 constant groups: cmdargs, version thresholds, line prefixes, response keys, termini, S-expression reader constants), for a state-machine model of delphin/ace.py (interact/send/_result_lines/receive/_open/"
            "close for the parser, transferer and generator with both protocols; repaired code) talking to a scripted child with "
            "an arbitrary exit schedule and arbitrary race-oracle stream: one response per input in order, each recording its "
            "input, built only from lines the processor wrote for that input; no hang and no exception; unserved or unanswered "
